@@ -35,6 +35,11 @@ fn ext_menu() -> Vec<ExtSpec> {
         ExtSpec { crit: false, name: "x-bindpw-sha256", val: Some("v"), known: None },
         ExtSpec { crit: false, name: "bindnam", val: Some("v"), known: None },
         ExtSpec { crit: true, name: "1.3.6.1.4.1.1466.200370", val: None, known: None },
+        // spellings of the experimental OIDs that are different OIDs (leading zero, sign)
+        ExtSpec { crit: true, name: "1.3.6.1.4.1.10094.1.5.01", val: Some("x"), known: None },
+        ExtSpec { crit: false, name: "1.3.6.1.4.1.10094.1.5.02", val: Some("PLAIN"), known: None },
+        ExtSpec { crit: false, name: "1.3.6.1.4.1.10094.1.5.+1", val: Some("x"), known: None },
+        ExtSpec { crit: true, name: "1.3.6.1.4.1.01466.20037", val: None, known: None },
     ]
 }
 
@@ -218,6 +223,43 @@ pub fn run(tier: Tier) -> i32 {
         };
         judge(&rep, &c, &evals, &nontrivial);
     });
+    // counts: attribute lists of n attributes (n up to 40 and a few larger), and extension lists
+    // of up to 10 extensions in which one unknown extension (critical or not) sits at every position
+    // among all five recognised ones
+    {
+        let counts: Vec<usize> = (3..=40).chain([63, 64, 65, 100, 255, 256, 257]).collect();
+        for n in counts {
+            let al: Vec<String> = (0..n).map(|k| if k % 7 == 6 { format!("2.5.4.{}", k) } else { format!("attr{};lang-x{}", k, k % 3) }).collect();
+            for (bi, base) in ["", "dc=example,dc=com"].iter().enumerate() {
+                let c = Case {
+                    parts: UrlParts { base: base.to_string(), attrs: Some(al.clone()), scope: if bi == 0 { None } else { Some("one".into()) }, filter: if n % 2 == 0 { None } else { Some("(cn=a)".into()) }, exts: vec![], raw_slash: false },
+                    exts: vec![],
+                    keep_trailing: n % 2 == 0,
+                };
+                judge(&rep, &c, &evals, &nontrivial);
+            }
+        }
+        let known_five: Vec<ExtSpec> = vec![menu[0].clone(), menu[3].clone(), menu[5].clone(), menu[7].clone(), menu[8].clone()];
+        let odd: Vec<ExtSpec> = menu.iter().filter(|e| e.known.is_none()).cloned().collect();
+        for o in &odd {
+            for pos in 0..=known_five.len() {
+                for dup in [false, true] {
+                    let mut l = known_five.clone();
+                    l.insert(pos, o.clone());
+                    if dup {
+                        // a second round of the recognised ones after it (first occurrence wins)
+                        l.extend(known_five.iter().rev().cloned());
+                    }
+                    let c = Case {
+                        parts: UrlParts { base: "dc=x".into(), attrs: None, scope: None, filter: None, exts: l.iter().map(|e| (e.crit, e.name.to_string(), e.val.map(|v| v.to_string()))).collect(), raw_slash: false },
+                        exts: l,
+                        keep_trailing: false,
+                    };
+                    judge(&rep, &c, &evals, &nontrivial);
+                }
+            }
+        }
+    }
     // percent-sequences that are not UTF-8 in each percent-decoded position
     let mut bad = 0u64;
     for u in [
@@ -227,6 +269,9 @@ pub fn run(tier: Tier) -> i32 {
         "ldap://h/dc=x????x-bindpw=%c3",
         "ldap://h/dc=x????unknown=%ff",
         "ldap://h/dc=x????1.3.6.1.4.1.10094.1.5.2=%80",
+        // ... also behind all five recognised extensions, and in an attribute name
+        "ldap://h/dc=x????bindname=a,x-bindpw=b,1.3.6.1.4.1.1466.20037,1.3.6.1.4.1.10094.1.5.1=c,1.3.6.1.4.1.10094.1.5.2=d,later=%ff",
+        "ldap://h/dc=x????bindname=a,x-bindpw=b,1.3.6.1.4.1.1466.20037,1.3.6.1.4.1.10094.1.5.1=c,1.3.6.1.4.1.10094.1.5.2=d,unknown=v,bindname=%c3%28",
     ] {
         bad += 1;
         evals.fetch_add(1, Ordering::Relaxed);
